@@ -15,7 +15,8 @@ HISTORY_RULE = ("rapid draws whole histories (1-25 steps quick, 1-60 thorough) o
                 "naming the action the application registers no controller for), admin "
                 "messages and environment steps (direct deposits, re-escrow, FTF pause/blacklist, CCTP burn limit, CCTP burn/message pauses, Hyperlane "
                 "router unenrol/enrol), recipients incl. 32-byte and 2-byte addresses, denominations incl. one of the maximum length 128 and one using "
-                "every allowed character class; executed on a "
+                "every allowed character class; Hyperlane routes may name the environment's SYNTHETIC token (its own denomination is never transferred); "
+                "executed on a "
                 "branch of the real SimApp; the oracle runs after every packet step. ")
 
 PROPERTIES = {
@@ -46,7 +47,8 @@ PROPERTIES = {
                 "domain/burning paused, Hyperlane unknown domain/token/other-denom token, blocked recipient, short escrow, receive disabled): "
                 "error ack, or a success whose whole-ledger delta is exactly the model's; for the causes the statement lists (and whenever the cause "
                 "makes a step of this transfer impossible) a success is a violation. Every call site is also made to fail by PANICKING, before "
-                "the real call and after it completed: the receive path may abort or return an error ack, never a success. "
+                "the real call and after it completed: the receive path may abort or return an error ack, never a success; a step of the fault-free "
+                "run that is skipped when the same packet is executed again on the same state is a violation too. "
                 "Non-trivial = a faulted run whose fault fired / a "
                 "natural failure; distinct by (shape, fault tuple).",
         "assumptions": COMMON_ASSUMPTIONS + ["the LAB world duplicates the wiring of depinject.go (the wiring itself is exercised by the PROD-world checks)",
@@ -87,6 +89,8 @@ PROPERTIES = {
                 "bridge call. MsgReplaceDepositForBurn: recorded CCTP request has From = orbiter and the four byte fields unchanged. "
                 "PROD world: DepositForBurn/MessageSent(parsed)/EventSendRemoteTransfer events equal the payload, and a REAL replacement "
                 "(message attested with the harness attester key) carries the new recipient/caller and the original nonce/amount. "
+                "The token named in a recorded warp request must be the token of the post-action denomination (collateral tokens and the "
+                "environment's synthetic token are known to the harness). "
                 "Non-trivial = a transfer whose request was recorded / a matrix cell / a replacement; distinct by case.",
         "assumptions": COMMON_ASSUMPTIONS + ["LAB duplicates the wiring of depinject.go; the routing by identifier of the wired chain is checked on the PROD stack by the matrix test"],
         "tests": [
@@ -106,7 +110,9 @@ PROPERTIES = {
                 "delta and the two statistics entries equal the model; a repeated identifier => error ack with NO action call executed; a fee list "
                 "the statement refuses at ANY position of the list, or a paused action anywhere in it => error ack (never 'the remaining actions "
                 "were skipped'). A list the model accepts may be refused only when a recorded dependency call failed (ICS-20, bank, swap venue, "
-                "bridge, event manager); otherwise the module itself refused a list it must apply. "
+                "bridge, event manager); otherwise the module itself refused a list it must apply. The request of a bridge call that the bridge REFUSED "
+                "is checked as well (CCTP after a swap is drawn on purpose: it cannot burn the swap output but must be asked about the right coin); "
+                "one transferable denomination differs from the swap output by letter case only. "
                 "Non-trivial = >= 2 actions or a denomination change or a repeated identifier; distinct by case.",
         "assumptions": COMMON_ASSUMPTIONS + ["the swap controller is the harness's own (the chain registers none); LAB never deposits its output denom on the orbiter account"],
         "tests": [{"test": "TestC06Orders", "quick": 1500, "thorough": 600000}],
@@ -199,6 +205,8 @@ PROPERTIES = {
                 "well-formed, purity over 7 parses on two parser instances), seeded with valid memos of every route and hostile constants. "
                 "Type URLs: besides a hand-picked list, the attributes object is replaced by {\"@type\": U} alone for U drawn from EVERY type URL "
                 "registered in the application's interface registry (enumerated at start-up), so that nothing but the type can be the reason to refuse. "
+                "Purity includes the parser's HISTORY: between two parses of the memo the same parser sees 0-3 other memos (valid, mutated, and memos "
+                "of other applications such as packet-forward or wasm), and the fuzz targets compare with a parser built just now. "
                 "Non-trivial = an accepted memo, a round-tripped payload, or a fuzz corpus entry that reached new coverage; distinct by memo text.",
         "assumptions": COMMON_ASSUMPTIONS + ["repeated JSON keys are judged only by the purity clause (the statement does not say which occurrence counts)"],
         "tests": [
@@ -261,7 +269,8 @@ PROPERTIES["C20"] = {
             "CCTP/Hyperlane the string equals FormatUint(v,10) for some v < 2^32 and equals the CounterpartyID() of the attributes for v; "
             "every canonical decimal is accepted; genesis validation agrees. Paths oracle (PROD): a non-canonical string is refused by "
             "genesis validation (forwarder pause list AND dispatcher amount/count records, source and destination role), PauseCrossChains and "
-            "IsCrossChainPaused, each also in a state where the protocol is paused as a whole; after a successful pause of a canonical id a valid probe transfer to "
+            "IsCrossChainPaused, each also in a state where the protocol is paused as a whole; after a successful pause (alone, or in a batch next "
+            "to an already-paused identifier or a repetition) of a canonical id a valid probe transfer to "
             "the domain it denotes is refused. Non-trivial = an accepted CCTP/Hyperlane string or a coupled probe; distinct by (protocol, string).",
     "assumptions": COMMON_ASSUMPTIONS,
     "tests": [
